@@ -7,10 +7,10 @@ variable {α : Type}
     odd-phase items `i .. i+2M-1`, halved -/
 theorem decSpec_getElem (o : Ops α) (taps he ho x : List α) (hm : 1 ≤ taps.length)
     (h1 : he.length = taps.length - 1) (h2 : ho.length = 2 * taps.length - 1) (i : Nat) (hi : i < x.length / 2) :
-    (decSpec o taps he ho x)[i]'(by rw [decSpec_length o taps he ho x hm h1 h2]; exact hi) =
+    (hbfDecSpec o taps he ho x)[i]'(by rw [decSpec_length o taps he ho x hm h1 h2]; exact hi) =
       o.half (o.add ((he ++ evens x)[i]'(by simp [evens_length]; omega))
         (firTap o taps (((ho ++ odds x).drop i).take (2 * taps.length)))) := by
-  simp only [decSpec, List.getElem_map, List.getElem_zip, List.getElem_take, decComb,
+  simp only [hbfDecSpec, List.getElem_map, List.getElem_zip, List.getElem_take, hbfDecComb,
     windows_getElem _ (by omega : 0 < 2 * taps.length)]
 
 theorem interleave_getElem (a b : List α) (i : Nat) (ha : i < a.length) (hb : i < b.length) :
@@ -33,15 +33,15 @@ theorem interleave_getElem (a b : List α) (i : Nat) (ha : i < a.length) (hb : i
     then item `M+i` itself (centre tap) -/
 theorem intSpec_getElem (o : Ops α) (taps h x : List α) (hm : 1 ≤ taps.length)
     (h1 : h.length = 2 * taps.length - 1) (i : Nat) (hi : i < x.length) :
-    (intSpec o taps h x)[2 * i]'(by rw [intSpec_length o taps h x hm h1]; omega) =
+    (hbfIntSpec o taps h x)[2 * i]'(by rw [intSpec_length o taps h x hm h1]; omega) =
       firTap o taps (((h ++ x).drop i).take (2 * taps.length)) ∧
-    (intSpec o taps h x)[2 * i + 1]'(by rw [intSpec_length o taps h x hm h1]; omega) =
+    (hbfIntSpec o taps h x)[2 * i + 1]'(by rw [intSpec_length o taps h x hm h1]; omega) =
       (h ++ x)[taps.length + i]'(by simp [h1]; omega) := by
   have hn : 0 < 2 * taps.length := by omega
   have hw := windows_length (2 * taps.length) hn (h ++ x)
   have := interleave_getElem ((windows (2 * taps.length) (h ++ x)).map (firTap o taps))
     (((h ++ x).drop taps.length).take x.length) i (by simp [hw, h1]; omega) (by simp [h1]; omega)
-  simp only [intSpec]
+  simp only [hbfIntSpec]
   rw [this.1, this.2]
   simp only [List.getElem_map, windows_getElem _ hn, List.getElem_take, List.getElem_drop, true_and]
 
